@@ -556,11 +556,14 @@ Proof.
   induction 1 as [|pg rs pages rowss Hp HF IH]; intros done.
   - cbn. reflexivity.
   - destruct pg as [[es vs] nr]. destruct Hp as (Ne & Ha & Hn). cbn [fst snd] in *. subst nr.
-    cbn [read_col_v2 concat]. rewrite app_length.
+    cbn [read_col_v2 concat fst]. destruct es as [|[r0 d0] es']; [contradiction|].
+    assert (R0 : (r0 =? 0) = true).
+    { cbn [assemble_spec] in Ha. destruct (r0 =? 0); [reflexivity|discriminate]. }
+    rewrite R0. rewrite app_length.
     pose proof (skipn_len_app done (repeat None (length rs + length (concat rowss))) 0) as S0.
     rewrite Nat.add_0_r in S0. cbn [skipn] in S0. rewrite S0.
     rewrite firstn_repeat_add.
-    destruct (single_page es vs rs Ne Ha) as [i E]. unfold empty_arr in E.
+    destruct (single_page ((r0, d0) :: es') vs rs Ne Ha) as [i E]. unfold empty_arr in E.
     match goal with |- context [assemble_page ?a ?b ?c ?d ?e] =>
       replace (assemble_page a b c d e) with (AOk (A:=arr V * nat) (rs, i)) by (symmetry; exact E) end.
     rewrite firstn_len_app, skipn_len_app, skipn_repeat_add.
